@@ -22,6 +22,7 @@ PROPS = {
     ),
     "C03": dict(
         verus=["xrefstream", "strings", "names", "mainwriter"],
+        standins=["objects"],
         not_decided="text of classic xref entries ({:010} formatting of the recorded offsets), startxref, /Size, reference resolution, strict-parser acceptance (write_document's I/O sequence); buffered (object-stream) objects; names (see C30)",
     ),
     "C09": dict(
@@ -59,7 +60,7 @@ PROPS = {
     ),
     "C30": dict(
         verus=["names", "incr", "lexer"],
-        standins=["fmt", "opnames"],
+        standins=["fmt", "opnames", "objects"],
         level_text="the four dictionary-level name emission sites of the main writer and the incremental writer's write_name are proved to emit an ISO name token that decodes to the given bytes; content-stream operator names (/{name} Do through writeln!/format!) have NO deductive unit",
         not_decided="operator names in content streams (graphics ops, page.rs: formatted text outside both verifiers), resource dictionary assembly, form field names, that the library's own lexer decodes #XX to the same string for non-ASCII bytes",
     ),
@@ -70,7 +71,7 @@ PROPS = {
     ),
     "C17": dict(
         verus=["incr", "prevmerge"],
-        standins=["fmt"],
+        standins=["fmt", "notes-history", "revisions"],
         not_decided="write_trailer text, /ID computation (md5), that the chain parses in a reader, incremental_form_fill / incremental_text_notes field-tree resolution; termination of write_object/write_dictionary (recursion through an opaque dictionary) is not proved",
     ),
     "C18": dict(
@@ -114,10 +115,10 @@ PROPS = {
         not_decided="CMap tokenizer/parser, bfrange array form, code-space rejection, ToUnicode builder round trip",
     ),
     "C07": dict(
-        verus=["runlength", "pngrows", "predictor", "bounded", "asciihex", "ascii85"],
-        standins=["a85hex-roundtrip"],
+        verus=["runlength", "pngrows", "predictor", "bounded", "asciihex", "ascii85", "chainorder"],
+        standins=["a85hex-roundtrip", "filters-roundtrip"],
         kani=[K("c07_paeth_predictor_png_spec", "parser/filters.rs", "paeth_predictor")],
-        not_decided="LZW, CCITT, Flate (dependency), ASCIIHex/ASCII85 (iterator adapters; outside Verus), PNG/TIFF predictors pending",
+        not_decided="LZW code-width schedule and Flate (dependency) are covered only by the bounded stand-in filters-roundtrip; CCITT/JBIG2/DCT; TIFF predictor 2 is a known finding (passed through undecoded)",
     ),
     "C08": dict(
         verus=["runlength", "bounded", "streamlimit", "asciihex", "ascii85", "readlimited"],
